@@ -412,7 +412,9 @@ def _count_detail(actuals, inv):
     for ent in sorted(spelled):
         if ent not in actuals:
             return f"missing:{G.spelling_class(kinds[ent], ent)}"
-    return "other"
+    # every distinct actual of the invoke is passed exactly once: it is the
+    # PSy-layer routine that declares a different number of dummies
+    return "psy-dummy-count"
 
 
 def unused_dummies(routine, inv):
